@@ -1,3 +1,18 @@
 import JominiModel.Props.C07
-open Jomini.Props.C07
-#print axioms C07_boundary_table
+#print axioms Jomini.Props.C07.C07_boundary_table
+#print axioms Jomini.Props.C07.C07_blank_table
+#print axioms Jomini.Props.C07.C07_leadingWhitespace_spec
+#print axioms Jomini.Props.C07.C07_quoteFinder_spec
+#print axioms Jomini.Props.C07.C07_containsZeroByte_spec
+#print axioms Jomini.Props.C07.C07_containsByte_spec
+#print axioms Jomini.Props.C07.C07_resume_quote
+#print axioms Jomini.Props.C07.C07_resume_quote_again
+#print axioms Jomini.Props.C07.C07_resume_quote_carry
+#print axioms Jomini.Props.C07.C07_resume_unquoted
+#print axioms Jomini.Props.C07.C07_resume_comment
+#print axioms Jomini.Props.C07.C07_no_token_split
+#print axioms Jomini.Props.C07.C07_fallback_call_eq_spec
+#print axioms Jomini.Props.C07.C07_spec_total
+#print axioms Jomini.Props.C07.C07_start_related
+#print axioms Jomini.Props.C07.C07_fallback_schedule_independent_partial
+#print axioms Jomini.Props.C07.C07_two_schedules_agree
